@@ -1346,6 +1346,17 @@ function runWorld(job) {
             continue
           }
         }
+        if (l.kind === 'native' && l.owner) {
+          // an input inside a child writes to the child's data: that is host-reproducible state only
+          // when the property it lands in is itself model-bound to an assignable host expression
+          const orec = ctx.modelPaths.get(l.owner)
+          const prop = entry && entry.path ? entry.path[0] : undefined
+          const bound = orec && prop !== undefined && orec[prop] && orec[prop].path
+          if (!bound) {
+            bump(ctx, 'step.op_skipped')
+            continue
+          }
+        }
         if (l.kind === 'native') {
           l.fn.call(l.node, clone(v))
           bump(ctx, 'fault.model_write')
